@@ -14,7 +14,7 @@ from ..contract import contract, same_meta, assert_start, bits_equal, rate_hz
 EPS = 2.220446049250313e-16
 ASSUMPTIONS = [
     "fractional requests: reference = band-limited (DFT) interpolation x(t+k) from the longdouble DFT matrix, bins as numpy.fft.fftfreq; "
-    "tolerance 2e-6*(1+log2 N)*max|x| (complex64 phase ramp of time_shift)",
+    "tolerance 2e-6*(1+log2 N)*max|x| for single-precision samples, 1e-12*(1+log2 N)*max|x| for double-precision and integer samples",
     "a request given as duration or Time is converted to samples by the check with the same public astropy arithmetic; it counts as a "
     "whole-sample request when within the resolution of Time (2 eps day * rate) resp. float rounding (8 eps |t|) of one -- requests within "
     "4x that band of the snapping boundary are skipped as ambiguous",
@@ -160,7 +160,10 @@ def run_snip(case, stt):
     elif n > 0:
         ref = interp(x, teff, n) if N <= 256 else interp_fft(x, teff, n)
         scale = float(np.max(np.abs(x)))
-        tol = 2e-6 * (1 + math.log2(max(N, 2))) * scale
+        single = x.dtype.itemsize <= (8 if np.iscomplexobj(x) else 4) and x.dtype.kind in "fc"
+        tol = (2e-6 if single else 1e-12) * (1 + math.log2(max(N, 2))) * scale
+        if abs(teff - round(teff)) <= F(1, 10**8):
+            tol += 4e-8 * scale  # (time_shift documents shifts of up to 1e-8 sample as no shift at all)
         err = float(np.max(np.abs(np.asarray(y.data) - ref)))
         check(err <= tol, "fractional request t={}: samples differ from the band-limited interpolation by {:.3g} (tol {:.3g}, N={})", float(teff), err, tol, N)
     stt.nt((not whole) or teff + n == N or n in (0, N) or case["form"] in ("dur", "dt", "time"))
